@@ -2,6 +2,7 @@ import OjgVerif.Props.C17
 import OjgVerif.Match.LemmasTokChunks
 import OjgVerif.Match.LemmasTokRef
 import OjgVerif.Match.LemmasEventsInj
+import OjgVerif.Match.LemmasNoRepeat
 import OjgVerif.Gen.MatchFacts
 /-! # C17 — chunk independence of the callbacks as a PROVED clause
 
@@ -12,8 +13,8 @@ regenerated oj tables (`ojTables`, Gen/Oj.lean) and the configuration of `oj.Tok
 (`tokCfg true`: reader entry with BOM top-up, several documents allowed, no integer fast loop):
 
 * `tokEvents_chunk_independent` — the event sequence depends only on the bytes delivered, for every
-  chunking whose first read is not empty (from the lemmas behind `C03.chunks_irrelevant`; an empty
-  first read switches the BOM handling of the Go code off: `empty_first_read_bom`, known finding);
+  chunking (from the lemmas behind `C03.chunks_irrelevant`; before fix c109a1a an empty first read
+  switched the BOM handling of the Go code off: `empty_first_read_bom_before_fix`);
 * `tokEvents_accepted` — for an accepted input it is `events` of the trees AS WRITTEN (`raws`:
   members in the order of the text, repeated member names kept), and the documents the machine
   delivers are those trees with repeated names overwritten (`dd`); hence
@@ -37,29 +38,23 @@ open OjgVerif OjgVerif.Match OjgVerif.Json
 
 /-- **Chunk independence of the token-event sequence** of `oj.Tokenizer.Load` (regenerated oj
 tables, code as it is): every handler call, in order, with its argument, also before an error — for
-every chunking whose first read is not empty (known finding C17-empty-first-read-bom otherwise) -/
-theorem tokEvents_chunk_independent (chunks : List Bytes) (hne : chunks.head? ≠ some []) :
+EVERY chunking (since fix c109a1a also those with empty reads) -/
+theorem tokEvents_chunk_independent (chunks : List Bytes) :
     tokEvents ojTables (tokCfg true) chunks = tokEvents ojTables (tokCfg true) [chunks.flatten] :=
-  tokEvents_go_chunks_irrelevant ojTables (tokCfg true) rfl rfl chunks hne
+  tokEvents_go_chunks_irrelevant ojTables (tokCfg true) rfl rfl chunks
 
 /-- the same for any two chunkings of the same bytes -/
-theorem tokEvents_same_bytes (c c' : List Bytes) (hc : c.head? ≠ some []) (hc' : c'.head? ≠ some [])
-    (h : c.flatten = c'.flatten) :
+theorem tokEvents_same_bytes (c c' : List Bytes) (h : c.flatten = c'.flatten) :
     tokEvents ojTables (tokCfg true) c = tokEvents ojTables (tokCfg true) c' := by
-  rw [tokEvents_chunk_independent c hc, tokEvents_chunk_independent c' hc', h]
+  rw [tokEvents_chunk_independent c, tokEvents_chunk_independent c', h]
 
 /-- **Accepted input: the events are those of the trees as written.** Any configuration, any
-chunking (first read not empty, for the reader entry), regenerated oj tables. -/
+chunking, regenerated oj tables. -/
 theorem tokEvents_accepted (cfg : Cfg) (chunks : List Bytes) (docs : List JV)
-    (hne : cfg.reader = false ∨ chunks.head? ≠ some [])
     (h : Json.run ojTables cfg chunks = .ok docs) :
     ∃ raws : List JV, raws.map dd = docs ∧ tokEvents ojTables cfg chunks = raws.flatMap events := by
-  have he : tokEvents ojTables cfg chunks = tokEventsIdeal ojTables cfg chunks := by
-    rcases hne with hr | hne
-    · exact tokEvents_noreader ojTables cfg chunks hr
-    · exact tokEvents_eq_ideal ojTables cfg chunks hne
   rw [C01.oj_is_reference] at h
-  rw [he, tokEvents_eq_ref C01.ojTables_ok]
+  rw [tokEvents_eq_ideal_now, tokEvents_eq_ref C01.ojTables_ok]
   exact tokEvents_accepted_ref cfg chunks docs h
 
 theorem map_dd_of_nodup (raws : List JV) (h : ∀ r ∈ raws, NoDupKeys r = true) : raws.map dd = raws := by
@@ -75,11 +70,10 @@ the tokenizer model is the `machineEvents` of the byte machine's result — what
 `callbacks_chunk_independent_machine` took as a definition is now a theorem about the tokenizer's
 own event sequence -/
 theorem tokEvents_eq_machineEvents (cfg : Cfg) (chunks : List Bytes) (docs : List JV)
-    (hne : cfg.reader = false ∨ chunks.head? ≠ some [])
     (h : Json.run ojTables cfg chunks = .ok docs) (raws : List JV)
     (hev : tokEvents ojTables cfg chunks = raws.flatMap events) (hnd : ∀ r ∈ raws, NoDupKeys r = true) :
     docs = raws ∧ tokEvents ojTables cfg chunks = machineEvents (Json.run ojTables cfg chunks) := by
-  obtain ⟨raws', h1, h2⟩ := tokEvents_accepted cfg chunks docs hne h
+  obtain ⟨raws', h1, h2⟩ := tokEvents_accepted cfg chunks docs h
   have : raws' = raws := flatMap_events_inj _ _ (h2.symm.trans hev)
   subst this
   rw [map_dd_of_nodup raws' hnd] at h1
@@ -91,15 +85,27 @@ theorem tokEvents_eq_machineEvents (cfg : Cfg) (chunks : List Bytes) (docs : Lis
 def NoRepeatedNames (cfg : Cfg) (chunks : List Bytes) : Prop :=
   ∃ raws : List JV, tokEventsIdeal ojTables cfg chunks = raws.flatMap events ∧ ∀ r ∈ raws, NoDupKeys r = true
 
-/-- **Chunk independence of the callbacks**: every input (accepted or not), every target set
-(filters included), every setting of the deviations of the matcher — the callbacks of the handler
-behind `oj.Tokenizer.Load` are the same for any two chunkings of the same bytes whose first read is
-not empty. This discharges the hypothesis `hC03` of `callbacks_chunk_independent_given_C03` for the
-tokenizer model. -/
+/-- **Chunk independence of the callbacks, unconditionally**: every input (accepted or not), every
+target set (filters included), every setting of the deviations of the matcher — the callbacks of the
+handler behind `oj.Tokenizer.Load` are the same for any two chunkings of the same bytes. This
+discharges the hypothesis `hC03` of `callbacks_chunk_independent_given_C03` for the tokenizer model. -/
 theorem callbacks_chunk_independent (dv : Dev) (targets : List Target) (c c' : List Bytes)
-    (hc : c.head? ≠ some []) (hc' : c'.head? ≠ some []) (h : c.flatten = c'.flatten) :
+    (h : c.flatten = c'.flatten) :
     matchRun dv targets (tokEvents ojTables (tokCfg true) c) = matchRun dv targets (tokEvents ojTables (tokCfg true) c') := by
-  rw [tokEvents_same_bytes c c' hc hc' h]
+  rw [tokEvents_same_bytes c c' h]
+
+/-- the core of the `C17_chunked*` theorems: for an accepted text without a repeated member name the
+token events under ANY chunking are the events of the parsed document -/
+theorem tokEvents_of_text (text : Bytes) (doc : JV) (hacc : Json.run ojTables (tokCfg true) [text] = .ok [doc])
+    (hnr : NoRepeatedNames (tokCfg true) [text]) (chunks : List Bytes) (hch : chunks.flatten = text) :
+    tokEvents ojTables (tokCfg true) chunks = events doc ∧ NoDupKeys doc = true := by
+  obtain ⟨raws, hev, hnd⟩ := hnr
+  have hev' : tokEvents ojTables (tokCfg true) [text] = raws.flatMap events := by
+    rw [tokEvents_eq_ideal_now]; exact hev
+  obtain ⟨hd, _⟩ := tokEvents_eq_machineEvents _ _ _ hacc raws hev' hnd
+  subst hd
+  rw [tokEvents_same_bytes chunks [text] (by simp [hch]), hev']
+  exact ⟨by simp, hnd doc (by simp)⟩
 
 /-- **C17 with the chunking in the statement.** For every text the tokenizer accepts as ONE JSON
 document `doc` (the parsed value) and that does not repeat a member name inside an object, every
@@ -108,33 +114,47 @@ behind `oj.Tokenizer.Load` (code as it is now) are `expected` of the streamed re
 on `doc`. -/
 theorem C17_chunked (text : Bytes) (doc : JV) (hacc : Json.run ojTables (tokCfg true) [text] = .ok [doc])
     (hnr : NoRepeatedNames (tokCfg true) [text]) (targets : List Target)
-    (hnf : ∀ t ∈ targets, usesFilter t = false) (chunks : List Bytes) (hne : chunks.head? ≠ some [])
-    (hch : chunks.flatten = text) :
+    (hnf : ∀ t ∈ targets, usesFilter t = false) (chunks : List Bytes) (hch : chunks.flatten = text) :
     matchRun Dev.cur targets (tokEvents ojTables (tokCfg true) chunks) = expected (targets.map asStreamed) doc := by
-  obtain ⟨raws, hev, hnd⟩ := hnr
-  have hev' : tokEvents ojTables (tokCfg true) [text] = raws.flatMap events := by
-    rw [tokEvents_single]; exact hev
-  have hacc' : Json.run ojTables (tokCfg true) [chunks.flatten] = .ok [doc] := by rw [hch]; exact hacc
-  rw [← C03.chunks_irrelevant ojTables (tokCfg true) rfl rfl chunks] at hacc'
-  obtain ⟨hd, _⟩ := tokEvents_eq_machineEvents _ _ _ (Or.inr hne) hacc' raws
-    (by rw [tokEvents_chunk_independent chunks hne, hch]; exact hev') hnd
-  subst hd
-  rw [tokEvents_chunk_independent chunks hne, hch, hev']
-  simp only [List.flatMap_cons, List.flatMap_nil, List.append_nil]
-  exact C17_streamed targets doc (hnd doc (by simp)) hnf
+  obtain ⟨hev, hnd⟩ := tokEvents_of_text text doc hacc hnr chunks hch
+  rw [hev]
+  exact C17_streamed targets doc hnd hnf
+
+/-- **`NoRepeatedNames` is executable on the text**: for an accepted input it says exactly that the
+check `noRepeat` (a fold over the token events that keeps the names seen in each open object) passes -/
+theorem noRepeatedNames_iff (cfg : Cfg) (chunks : List Bytes) (docs : List JV)
+    (h : Json.run ojTables cfg chunks = .ok docs) :
+    NoRepeatedNames cfg chunks ↔ noRepeat (tokEventsIdeal ojTables cfg chunks) = true := by
+  rw [C01.oj_is_reference] at h
+  obtain ⟨raws, _, hev⟩ := tokEvents_accepted_ref cfg chunks docs h
+  rw [← tokEvents_eq_ref C01.ojTables_ok] at hev
+  rw [hev, noRepeat_events]
+  constructor
+  · rintro ⟨raws', hev', hnd⟩
+    have : raws' = raws := flatMap_events_inj _ _ (hev'.symm.trans hev)
+    subst this
+    simpa [List.all_eq_true] using hnd
+  · intro hall
+    exact ⟨raws, hev, by simpa [List.all_eq_true] using hall⟩
+
+/-- `C17_chunked` with the executable hypothesis -/
+theorem C17_chunked_exec (text : Bytes) (doc : JV) (hacc : Json.run ojTables (tokCfg true) [text] = .ok [doc])
+    (hnr : noRepeat (tokEventsIdeal ojTables (tokCfg true) [text]) = true) (targets : List Target)
+    (hnf : ∀ t ∈ targets, usesFilter t = false) (chunks : List Bytes) (hch : chunks.flatten = text) :
+    matchRun Dev.cur targets (tokEvents ojTables (tokCfg true) chunks) = expected (targets.map asStreamed) doc :=
+  C17_chunked text doc hacc ((noRepeatedNames_iff _ _ _ hacc).mpr hnr) targets hnf chunks hch
 
 /-- the same with the specification itself on the right when no target deviates -/
 theorem C17_chunked_partial (text : Bytes) (doc : JV) (hacc : Json.run ojTables (tokCfg true) [text] = .ok [doc])
     (hnr : NoRepeatedNames (tokCfg true) [text]) (targets : List Target)
-    (hdev : ∀ t ∈ targets, deviates t = false) (chunks : List Bytes) (hne : chunks.head? ≠ some [])
-    (hch : chunks.flatten = text) :
+    (hdev : ∀ t ∈ targets, deviates t = false) (chunks : List Bytes) (hch : chunks.flatten = text) :
     matchRun Dev.cur targets (tokEvents ojTables (tokCfg true) chunks) = expected targets doc := by
   have hnf : ∀ t ∈ targets, usesFilter t = false := by
     intro t ht
     have := hdev t ht
     simp only [deviates, Bool.or_eq_false_iff] at this
     exact this.2
-  rw [C17_chunked text doc hacc hnr targets hnf chunks hne hch]
+  rw [C17_chunked text doc hacc hnr targets hnf chunks hch]
   have : targets.map asStreamed = targets := by
     conv => rhs; rw [← List.map_id targets]
     exact List.map_congr_left (fun t ht => asStreamed_id t (hdev t ht))
@@ -148,8 +168,8 @@ theorem C17_bytes (text : Bytes) (doc : JV) (hacc : Json.run ojTables (tokCfg fa
     matchRun Dev.cur targets (tokEvents ojTables (tokCfg false) [text]) = expected (targets.map asStreamed) doc := by
   obtain ⟨raws, hev, hnd⟩ := hnr
   have hev' : tokEvents ojTables (tokCfg false) [text] = raws.flatMap events := by
-    rw [tokEvents_single]; exact hev
-  obtain ⟨hd, _⟩ := tokEvents_eq_machineEvents _ _ _ (Or.inl rfl) hacc raws hev' hnd
+    rw [tokEvents_eq_ideal_now]; exact hev
+  obtain ⟨hd, _⟩ := tokEvents_eq_machineEvents _ _ _ hacc raws hev' hnd
   subst hd
   rw [hev']
   simp only [List.flatMap_cons, List.flatMap_nil, List.append_nil]
@@ -209,24 +229,25 @@ theorem repeated_name_events :
 /-- `EF BB BF [1]` -/
 def bomText : Bytes := [0xEF, 0xBB, 0xBF, 91, 49, 93]
 
-/-- **Known finding C17-empty-first-read-bom**: a first `Read` of 0 bytes switches the byte-order-mark
-handling of `Tokenizer.Load` off — the same bytes give the events of `[1]` when read in one piece and
-no event at all (a syntax error at the mark) when an empty read comes first; the machine model of
-C03 (`Json.run`, which ignores empty reads) accepts both. This is why the chunk-independence
-theorems above ask for a non-empty first read. -/
-theorem empty_first_read_bom :
-    tokEvents ojTables (tokCfg true) [bomText] = events (.arr [.int 1]) ∧
-    tokEvents ojTables (tokCfg true) [[], bomText] = [] ∧
+/-- **Finding C17-empty-first-read-bom (FIXED in /repo, c109a1a)**: before the fix (flag on) a first
+`Read` of 0 bytes switched the byte-order-mark handling of `Tokenizer.Load` off — the same bytes gave
+the events of `[1]` read in one piece and no event at all (a syntax error at the mark) when an empty
+read came first; the code as it is gives the events of `[1]` either way. -/
+theorem empty_first_read_bom_before_fix :
+    tokEventsWith ojTables (tokCfg true) true [bomText] = events (.arr [.int 1]) ∧
+    tokEventsWith ojTables (tokCfg true) true [[], bomText] = [] ∧
+    tokEvents ojTables (tokCfg true) [[], bomText] = events (.arr [.int 1]) ∧
     [bomText].flatten = [[], bomText].flatten := by
-  refine ⟨?_, ?_, rfl⟩
-  · rw [tokEvents_single, tokEvents_eq_ref C01.ojTables_ok]; rfl
-  · have : tokEvents ojTables (tokCfg true) [[], bomText] = evAfterBom ojTables (tokCfg true) [bomText] := rfl
+  refine ⟨?_, ?_, ?_, rfl⟩
+  · rw [tokEvents_eq_ideal ojTables (tokCfg true) true _ (by simp [bomText]), tokEvents_eq_ref C01.ojTables_ok]; rfl
+  · have : tokEventsWith ojTables (tokCfg true) true [[], bomText] = evAfterBom ojTables (tokCfg true) [bomText] := rfl
     rw [this, evAfterBom_eq_ref C01.ojTables_ok]; rfl
+  · rw [tokEvents_eq_ideal_now, tokEvents_eq_ref C01.ojTables_ok]; rfl
 
 /-- Regression tripwire for the flag `emptyFirstReadNoBom` (as `dev_cur_matches_source`): the flag is
-on exactly while the byte-order-mark top-up loop of `(*oj.Tokenizer).Load` still demands `0 < cnt`
-(its condition, regenerated from oj/tokenizer.go on every run by tools/extract/match.go). Applying
-the proposed fix `C17_empty_first_read_bom` without switching the flag off breaks this proof. -/
+on exactly while the byte-order-mark top-up loop of `(*oj.Tokenizer).Load` demands `0 < cnt` (its
+condition, regenerated from oj/tokenizer.go on every run by tools/extract/match.go). Fix c109a1a
+changed the condition; the flag is off. Reverting the line without the flag breaks this proof. -/
 theorem emptyFirstRead_matches_source :
     emptyFirstReadNoBom = (Gen.MatchFacts.ojLoadTopUpCond == "err == nil && 0 < cnt && cnt < 4 && buf[0] == 0xEF") := by
   decide
